@@ -351,7 +351,7 @@ class QueueWorld(object):
                 return None
             return (rep.code, rep.message)           # the text as it was when the relay reported it
         # the same downstream behaviour must be reported the same way whatever happened before in this process
-        shape = tuple((per.get(r),) + tuple(re.sub(r' for \S+', '', x or '') for x in (reported_reply(r) or ('', ''))) for r in rcpts)
+        shape = tuple((per.get(r),) + tuple(re.sub(r' for \S*', '', x or '') for x in (reported_reply(r) or ('', ''))) for r in rcpts)
         key = (rec['outcome'], len(rcpts))
         first = self.real_reports.setdefault(key, shape)
         if first != shape:
